@@ -96,30 +96,69 @@ fn localize_mode(cases_path: &str, out_path: &str) {
 struct World {
     root: PathBuf,
     layers: Vec<PathBuf>,
+    /// how the layer roots are SPELLED when handed to LayeredFilesystem::new (the statement does not restrict it)
+    given: Vec<String>,
     canon: Vec<String>,
 }
 static COUNTER: std::sync::atomic::AtomicUsize = std::sync::atomic::AtomicUsize::new(0);
+/// 0 = every root in its plain spelling; k > 0: layer i is spelled in style (k + i) mod 6 of
+/// plain | trailing '/' | via "<root>/x/../lN" | doubled "//" | a symlink to the layer directory | relative to the cwd
+static ROOT_STYLE: std::sync::atomic::AtomicUsize = std::sync::atomic::AtomicUsize::new(0);
+fn set_root_style(k: usize) {
+    ROOT_STYLE.store(k, std::sync::atomic::Ordering::Relaxed);
+}
+const ROOT_STYLES: [&str; 6] = ["plain", "trailing-slash", "dotdot", "double-slash", "symlink", "relative"];
 
 impl World {
     fn create(nlayers: usize) -> World {
         let k = COUNTER.fetch_add(1, std::sync::atomic::Ordering::Relaxed);
         let root = std::env::temp_dir().join(format!("mvhfs{}x{}", std::process::id(), k));
         let _ = std::fs::remove_dir_all(&root);
+        let style = ROOT_STYLE.load(std::sync::atomic::Ordering::Relaxed);
         let mut layers = Vec::new();
+        let mut given = Vec::new();
         for i in 0..nlayers {
-            let l = root.join(format!("l{}", i + 1));
+            let name = format!("l{}", i + 1);
+            let l = root.join(&name);
             std::fs::create_dir_all(&l).expect("create layer dir");
+            let r = root.display().to_string();
+            let st = if style == 0 { "plain" } else { ROOT_STYLES[(style + i) % ROOT_STYLES.len()] };
+            given.push(match st {
+                "trailing-slash" => format!("{}/{}/", r, name),
+                "dotdot" => {
+                    std::fs::create_dir_all(root.join("x")).expect("create x");
+                    format!("{}/x/../{}", r, name)
+                }
+                "double-slash" => format!("{}//{}", r, name),
+                "symlink" => {
+                    // a symlink to the layer directory itself: the tree below stays a plain tree
+                    let link = root.join(format!("s{}", i + 1));
+                    std::os::unix::fs::symlink(&l, &link).expect("symlink");
+                    link.display().to_string()
+                }
+                "relative" => {
+                    std::env::set_current_dir(&root).expect("chdir");
+                    name.clone()
+                }
+                _ => l.display().to_string(),
+            });
             layers.push(l);
         }
         let canon = layers.iter().map(|l| std::fs::canonicalize(l).unwrap().display().to_string()).collect();
-        World { root, layers, canon }
+        World { root, layers, given, canon }
     }
     fn layer_strings(&self) -> Vec<String> {
-        self.layers.iter().map(|l| l.display().to_string()).collect()
+        self.given.clone()
+    }
+    /// the spellings with the temp root abbreviated (for the log)
+    fn spellings(&self) -> Vec<String> {
+        let r = self.root.display().to_string();
+        self.given.iter().map(|g| g.replace(&r, "<root>")).collect()
     }
 }
 impl Drop for World {
     fn drop(&mut self) {
+        let _ = std::env::set_current_dir(std::env::temp_dir());
         let _ = std::fs::remove_dir_all(&self.root);
     }
 }
@@ -302,17 +341,28 @@ fn fixture_text(f: TextArchiveFormat, e: Endian) -> TextArchive {
 struct Sys {
     fs: LayeredFilesystem,
     canon: Vec<String>,
+    given: Vec<String>,
+}
+impl Sys {
+    /// LayeredFilesystem::clone - whatever the object remembers travels with it
+    fn clone_object(&self) -> Sys {
+        Sys { fs: self.fs.clone(), canon: self.canon.clone(), given: self.given.clone() }
+    }
 }
 
 fn project_resolved(sys: &Sys, p: &Path) -> Value {
     let s = p.display().to_string();
-    for (i, c) in sys.canon.iter().enumerate().rev() {
-        if s == *c {
-            return json!({"layer": i + 1, "rel": []});
-        }
-        let pre = format!("{}/", c);
-        if let Some(rest) = s.strip_prefix(&pre) {
-            return json!({"layer": i + 1, "rel": bytes_to_json(rest.as_bytes())});
+    // the root may come back in its canonical spelling or in the spelling it was given in
+    for roots in [&sys.canon, &sys.given] {
+        for (i, c) in roots.iter().enumerate().rev() {
+            let c = c.trim_end_matches('/');
+            if s == c {
+                return json!({"layer": i + 1, "rel": []});
+            }
+            let pre = format!("{}/", c);
+            if let Some(rest) = s.strip_prefix(&pre) {
+                return json!({"layer": i + 1, "rel": bytes_to_json(rest.as_bytes())});
+            }
         }
     }
     json!({"layer": 0, "rel": bytes_to_json(s.as_bytes())})
@@ -431,7 +481,7 @@ fn apply(sys: &Sys, ev: &Value) -> Map<String, Value> {
 
 fn open(w: &World, game: &str, lang: &str) -> Result<Sys, Value> {
     match catch(|| LayeredFilesystem::new(w.layer_strings(), lang_of(lang), game_of(game))) {
-        Ok(Ok(fs)) => Ok(Sys { fs, canon: w.canon.clone() }),
+        Ok(Ok(fs)) => Ok(Sys { fs, canon: w.canon.clone(), given: w.given.clone() }),
         Ok(Err(e)) => Err(err(class_of(&e), json!([]))),
         Err(p) => Err(json!({"panic": p})),
     }
@@ -454,7 +504,8 @@ fn establish(layers: &Value, game: &str, lang: &str, events: &mut Vec<Value>) ->
     }
     match open(&w, game, lang) {
         Ok(sys) => {
-            events.push(json!({"op": "reset", "game": game, "lang": lang, "res": ok(json!([])), "same": false, "post": snap}));
+            events.push(json!({"op": "reset", "game": game, "lang": lang, "res": ok(json!([])), "same": false, "post": snap,
+                               "roots": w.spellings()}));
             Some((w, sys, snap))
         }
         Err(res) => {
@@ -482,9 +533,17 @@ fn twin_of(ev: &Value) -> Option<Value> {
 fn run_events(w: &World, sys: &Sys, mut snap: Value, evs: &[Value], events: &mut Vec<Value>) -> Value {
     for ev in evs {
         let mut rec = ev.as_object().unwrap().clone();
-        // "then": calls to issue on the same directories right after this one (read-back after a write)
+        // "before": observations made on this object before the call; "then": the calls to issue on the same object
+        // right after it (read-back, the same observations again); "clone_then": the same on a clone of the object
+        // taken BEFORE the call.  What was observed earlier must not influence what is observed later.
+        let before = rec.remove("before");
         let then = rec.remove("then");
+        let clone_then = rec.remove("clone_then");
         rec.remove("twin");
+        if let Some(Value::Array(b)) = before {
+            snap = run_events(w, sys, snap, &b, events);
+        }
+        let older = if clone_then.is_some() { catch(|| sys.clone_object()).ok() } else { None };
         let ev = &Value::Object(rec.clone());
         for (k, v) in apply(sys, ev) {
             rec.insert(k, v);
@@ -501,6 +560,16 @@ fn run_events(w: &World, sys: &Sys, mut snap: Value, evs: &[Value], events: &mut
         events.push(Value::Object(rec));
         if let Some(Value::Array(follow)) = then {
             snap = run_events(w, sys, snap, &follow, events);
+        }
+        if let (Some(Value::Array(follow)), Some(c)) = (clone_then, older) {
+            let follow: Vec<Value> = follow
+                .into_iter()
+                .map(|mut f| {
+                    f["on_clone"] = json!(true);
+                    f
+                })
+                .collect();
+            snap = run_events(w, &c, snap, &follow, events);
         }
     }
     snap
@@ -537,6 +606,7 @@ fn replay_mode(cases_path: &str, out_path: &str, from: usize) {
         let fresh = c["fresh"].as_bool().unwrap();
         let mut events = Vec::new();
         let twins = c["twins"].as_bool().unwrap_or(false);
+        set_root_style(c["roots"].as_u64().unwrap_or(0) as usize);
         if fresh {
             // every call starts from the generated state
             for ev in evs {
@@ -875,6 +945,8 @@ fn record_mode(out_path: &str, runs: usize, len: usize, from: usize) {
             }
             return emit(out_path, i, events);
         }
+        // how the layer roots are spelled in this run
+        set_root_style(if rng.chance(1, 3) { 0 } else { rng.range(1, ROOT_STYLES.len()) });
         let typed_run = i % 4 == 3 && profile != "c13";
         // typed runs go through the five games in turn, so that every game's configuration is exercised even in
         // the quick tier
@@ -883,14 +955,15 @@ fn record_mode(out_path: &str, runs: usize, len: usize, from: usize) {
         let mut pool = Pool { paths: Vec::new() };
         let w = if typed_run { build_typed_world(&mut rng, game, &mut pool) } else { build_random_world(&mut rng, &mut pool) };
         let mut snap = snapshot(&w);
-        let sys = match open(&w, game, lang) {
+        let mut sys = match open(&w, game, lang) {
             Ok(s) => s,
             Err(res) => {
                 events.push(json!({"op": "new", "game": game, "lang": lang, "res": res, "same": true, "post": []}));
                 return emit(out_path, i, events);
             }
         };
-        events.push(json!({"op": "reset", "game": game, "lang": lang, "res": ok(json!([])), "same": false, "post": snap.clone()}));
+        events.push(json!({"op": "reset", "game": game, "lang": lang, "res": ok(json!([])), "same": false, "post": snap.clone(),
+                           "roots": w.spellings()}));
         if typed_run {
             // prelude: both archive kinds of both configurations, plain and under both compressed suffixes
             let mut pre = Vec::new();
@@ -903,6 +976,68 @@ fn record_mode(out_path: &str, runs: usize, len: usize, from: usize) {
             snap = run_events(&w, &sys, snap, &pre, &mut events);
         }
         for _ in 0..len {
+            // observe - mutate - observe again on ONE object (now and then on a clone taken after the first
+            // observations): directories that do not exist yet are looked at, something is written below them, and
+            // they are looked at again
+            if rng.chance(1, if profile == "c13" { 7 } else { 10 }) {
+                let loc = rng.chance(1, 3);
+                let mut p = rand_rel(&mut rng, 3);
+                if p.len() < 2 {
+                    p.insert(0, rng.pick(&NAMES).to_string());
+                }
+                let mut obs = Vec::new();
+                let mut d = p.clone();
+                for _ in 0..2 {
+                    if d.is_empty() {
+                        break;
+                    }
+                    d.pop();
+                    for l2 in if loc { vec![true, false] } else { vec![false] } {
+                        let t = rng.chance(1, 4);
+                        for g in [None, *rng.pick(&GLOBS)] {
+                            let mut e = mk_event("list", &d, t, l2);
+                            if let Some(g) = g {
+                                e["glob"] = json!({"some": true, "s": g});
+                            }
+                            obs.push(e);
+                        }
+                        obs.push(mk_event("subdirectories", &d, t, l2));
+                        if profile != "c13" {
+                            for op in ["exists", "directory_exists", "resolve"] {
+                                obs.push(mk_event(op, &d, t, l2));
+                            }
+                        }
+                    }
+                }
+                if profile != "c13" {
+                    for op in ["read", "file_exists", "exists", "resolve"] {
+                        obs.push(mk_event(op, &p, false, loc));
+                    }
+                }
+                snap = run_events(&w, &sys, snap, &obs, &mut events);
+                if rng.chance(1, 2) {
+                    if let Ok(c) = catch(|| sys.clone_object()) {
+                        sys = c;
+                    }
+                }
+                let m = match rng.below(10) {
+                    0 | 1 => mk_event("create_dir", &p, rng.chance(1, 3), loc),
+                    2 => {
+                        let mut e = mk_event("write_archive", &p, false, loc);
+                        e["fix"] = json!("le");
+                        e
+                    }
+                    _ => {
+                        let mut e = mk_event("write", &p, false, loc);
+                        e["data"] = bytes_to_json(&rand_payload(&mut rng));
+                        e
+                    }
+                };
+                snap = run_events(&w, &sys, snap, std::slice::from_ref(&m), &mut events);
+                snap = run_events(&w, &sys, snap, &obs, &mut events);
+                pool.paths.push(p);
+                continue;
+            }
             let loc = rng.chance(2, 5);
             // MVH_PROFILE shifts the mix of calls: c12 = no listings, c13 = mostly listings (with mutations in between)
             let r = match profile.as_str() {
